@@ -251,11 +251,12 @@ H(P, "c02", "c07_backface_antisymmetric", ("bare",), "all finite float triangles
 
 # ---------------------------------------------------------------- C02
 P = "C02"
-BOUNDS[P] = "round_up_to_half: every float in [-0.5, 2^22); scan(): trapezoids up to 3 rows tall with edges within 1e-3 of any pixel rectangle inside 64x64 (arbitrary floats); tri_fill: all lattice triangles of the 2x2 grid incl. degenerate (shared with C04); rasterize: see C07 harnesses (writes only row y, columns xs)"
+BOUNDS[P] = "round_up_to_half: every float in [-0.5, 2^22); perspective divide + viewport transform: every clip vertex inside the frustum with w in [2^-10,2^10] x every viewport <= 4096^2; scan(): trapezoids up to 3 rows tall with edges within 1e-3 of any pixel rectangle inside 64x64 (arbitrary floats); tri_fill: all lattice triangles of the 2x2 grid incl. degenerate (shared with C04); rasterize: see C07 harnesses (writes only row y, columns xs)"
 OUTSIDE[P] = ["the clipper's guarantee |x|,|y|,|z| <= w (C03, not decidable here)", "accumulation of edge-stepping error over more than 3 rows", "every render()-level statement (composition)", "NaN / infinite coordinates into tri_fill"]
 LEVEL_TEXT[P] = ("Bounded model checking of the units that index buffers unchecked: the half-pixel rounding rule (all floats), the margin lemma through scan() on arbitrary floats near a viewport border, "
                  "tri_fill on the lattice (no panic, in grid), and Target::rasterize writing only the addressed span. The composed pipeline is not claimed.")
 H(P, "c02", "c02_round_up_to_half", ALL4, "every f32 in [-0.5, 2^22)", "half-integer, >= x, within 1 of x, index == floor", est=5)
+H(P, "c02", "c02_divide_and_viewport", ("bare",), "clip vertex with |x|,|y| <= w, w in [2^-10,2^10] (all floats) x every viewport rectangle <= 4096^2", "NDC in [-1,1]; screen position inside the viewport rectangle within 1e-3; reciprocal depth positive and finite", unwind=6, est=200, cap=900)
 H(P, "c02", "c02_scan_margin_1row", ("bare",), "arbitrary float trapezoid at most one pixel tall, edges within 1e-3 of a pixel rectangle [l,r)x[t,b) in 64x64", "t <= y < b; l <= xs.start; max(xs.start,xs.end) <= r", unwind=4, est=2400, cap=2700, tiers=("thorough",))
 H(P, "c02", "c02_scan_margin", ("bare", "std"), "arbitrary float trapezoid <= 3 rows, edges within 1e-3 of a pixel rectangle [l,r)x[t,b) in 64x64", "t <= y < b; l <= xs.start; max(xs.start,xs.end) <= r; rows increasing", unwind=5, est=2400, cap=2700, tiers=("thorough",))
 H(P, "c04", "c04_degenerate_g2", ("bare",), "all zero-area lattice triangles", "no panic (partial_cmp().unwrap() included), in grid", unwind=6, est=200, cap=900)
@@ -320,6 +321,7 @@ LEVEL_TEXT[P] = ("Bounded model checking: evaluators and tangent against the int
 H(P, "c17", "c17_evaluators_lattice_f32", ("bare",), "integer control points [-2,2]^4, t = k/4", "eval*64 == fast_eval*64 == Bernstein integer form; tangent*16 == derivative; inside control bounds", est=120, cap=900)
 H(P, "c17", "c17_evaluators_lattice_2d", ("bare",), "Vec2 and Point2 instances, same lattice", "componentwise Bernstein form, eval and fast_eval", unwind=4, est=300, cap=900)
 H(P, "c17", "c17_ends_and_totality", ("bare",), "every float t, every 4 float control points (NaN/inf incl.)", "t<=0 => p0, t>=1 => p3 bitwise (eval, fast_eval, spline); tangent clamps; no panic", unwind=6, est=60)
+H(P, "c17", "c17_ends_exact", ("bare",), "control points from a table of 8 non-dyadic / mixed-magnitude values (8^4 polygons), t in {-3, -0.0, 0, 1, 1.5}", "eval, fast_eval, spline eval return the end control point itself bitwise; step() clamps inclusively", unwind=6, est=60)
 for n in (1, 2, 3, 4, 8):
     H(P, "c17", f"c17_segment_linear_n{n}", ("bare",), f"{n}-segment spline with control points on a line, every float t in [0,1]", "eval(t) == 3*n*t within 1e-3: right segment and re-based local parameter for every t", unwind=28 if n == 8 else 16, est=120, cap=900)
 for n in (2, 4):
